@@ -150,7 +150,9 @@ class C03(common.Prop):
     # ------------------------------------------------------------------ implementation
     def run_impl(self, case):
         pg.set_memo(case["memo"], other_bytes=self.other, same_bytes=case["file"])
-        r, pulled = pg.impl_read(case["file"], "bytes" if case["src"] == "bytes" else "stream", case["args"])
+        # window bounds arrive as Python ints or NumPy integer scalars of any width (a function of the case only)
+        at = pg.ARG_TYPES[(len(case["file"]) + sum(v for v in case["args"].values() if isinstance(v, int))) % len(pg.ARG_TYPES)]
+        r, pulled = pg.impl_read(case["file"], "bytes" if case["src"] == "bytes" else "stream", case["args"], argtype=at, limit=case.get("F"))
         case["_impl"] = (r, pulled)
         return {"read": pg.strip_err(r), "pulled": pulled if r[0] == "ok" else None}
 
